@@ -116,6 +116,8 @@ def domain(sort, quick=True):
         ms = list(D.all_mesh(0)) + list(D.all_mesh(1))
         m2 = list(D.all_mesh(2))
         return ms + rng.sample(m2, 60 if quick else 300) + list(D.sampled_mesh(rng, 3, 3 if quick else 20, boundary=False))
+    if sort == "none":
+        return [None]
     if sort == "Cell":
         return [(x, y) for x in range(0, 4) for y in range(0, 4)]
     if sort == "Seq":
